@@ -113,6 +113,14 @@ func c12(cx *Ctx, r *ev.Report) {
 			addLog(m)
 		}
 	}
+	if sem := cx.runSem(); sem.err == nil {
+		// Run itself, its helpers and the watcher goroutine: every path, with the
+		// CPU state generalised at the loop header
+		addLog(sem.sites)
+		for _, f := range sem.funcs {
+			covered[f] = true
+		}
+	}
 	for _, tm := range [][2]string{{"DumbMemory", "Get"}, {"DumbMemory", "Set"}, {"DumbIO", "In"}, {"DumbIO", "Out"}, {"MapMemory", "Get"}, {"MapMemory", "Set"}} {
 		m := cx.P.Method(load.ModulePath, tm[0], tm[1])
 		if m == nil {
